@@ -182,6 +182,11 @@ def run_bp(case, drv):
     tags = dict(shape=case["shape"], n=len(names), nev=len(case["ev"]))
     try:
         eng = BeliefPropagation(bn)
+        pre = (len(case["edges"]) + len(case["q"]) + len(case["ev"])) % 4
+        if pre == 1:
+            eng.max_calibrate()          # the public calibration calls leave beliefs behind: the next query is still a query
+        elif pre == 2:
+            eng.calibrate()
         if case.get("warm") and case["ev"]:
             try:
                 other = {pn[v]: gen.lab(labels[v][(i + 1) % card[v]]) for v, i in case["ev"]}
